@@ -1,10 +1,17 @@
 import ChiaModel.Lemmas.BundleInv
+import ChiaModel.Lemmas.BundleRules
+import ChiaModel.Lemmas.MsgKey
 /-
 C01 — spend conditions are accepted, rejected and summarised exactly per the rules.
 Theorems about the executable model of `parse_spends` (Model/Conditions.lean), which is tied to the
-Rust code by the correspondence check.  The full refinement to an order-free declarative
-specification is stated in DESIGN.md §6 (C01_refines) and is not yet proved; what is proved here is
-listed in the evidence file, and `open_statements` names the rest.
+Rust code by the correspondence check.
+
+First part (below): opcode recognition, the deferred cross-spend checks as declarative predicates.
+Second part (end of the file): the refinement to the order-free declarative specification of
+`Spec/ConditionRules.lean` (one spend) and `Spec/BundleRules.lean` (the bundle): `spend_refines`,
+`condLoop_refines`, `C01_refines`, `C01_rejects`.  What the specification still takes from the model
+(argument grammar table `parseArgs`, mempool eligibility flags inside the fold) is said at `C01_refines`;
+the closed forms of the flags follow it.
 -/
 namespace ChiaModel.C01
 open ChiaModel ChiaModel.Cond
@@ -137,5 +144,375 @@ theorem validateConditions_iff (ret : Bundle) (st : PState) :
       simp only [List.contains_eq_mem, List.mem_map, decide_eq_true_eq]
       exact ⟨p, hp, e.symm⟩
     · exact List.all_eq_true.mpr (fun m hm => by simpa using c11 m hm)
+
+end ChiaModel.C01
+
+/-! ## refinement to the order-free rules -/
+
+namespace ChiaModel.C01
+open ChiaModel ChiaModel.Cond ChiaModel.Rules ChiaModel.TL
+
+/-! ### one spend: the parsed conditions -/
+
+/-- **Per-spend refinement.**  Let `s` be the parser state in which the conditions of a spend are entered
+(a fresh spend record; bundle summary and parse state as left by the earlier spends, whose reserved fee is a
+u64) and `cs` the parsed conditions of the spend in listing order.  The fold of the parser's per-condition
+effect over `cs` (`applyAll`, i.e. `applyCond` = the `match` of `parse_conditions`, with early exit) accepts
+iff the ORDER-FREE per-spend rules `SpendAccepts` hold for the spend's attributes, the fee reserved before
+and the announcement budget; and then the state is exactly `spendResult`: `s` with the order-free summary
+`spendSummary` of `cs` entered (max / min / common value for the locks, created coins and the seven
+AGG_SIG lists in listing order, sums for additions and fee, absolute locks combined with the earlier
+spends' by max / min, the announcements / assertions / messages / signed pairs appended to the parse state).
+The equality is an equality of complete records (every field, lists in order). -/
+theorem spend_refines (env : Env) (s : CSt) (hs : FreshSpend s.spend) (hfee : s.ret.reserveFee < 2 ^ 64)
+    (cs : List Cond) (s' : CSt) :
+    applyAll env s cs = .ok s' ↔
+      SpendAccepts env (Rules.attrsOf s.spend) s.ret.reserveFee s.countdown cs ∧ s' = spendResult env s cs :=
+  applyAll_iff env s hs hfee cs s'
+
+/-- the conditions of a spend are rejected exactly when the per-spend rules fail (totality) -/
+theorem spend_rejects (env : Env) (s : CSt) (hs : FreshSpend s.spend) (hfee : s.ret.reserveFee < 2 ^ 64)
+    (cs : List Cond) :
+    (∃ e, applyAll env s cs = .error e) ↔ ¬ SpendAccepts env (Rules.attrsOf s.spend) s.ret.reserveFee s.countdown cs := by
+  cases h : applyAll env s cs with
+  | error e =>
+    refine ⟨fun _ ha => ?_, fun _ => ⟨e, rfl⟩⟩
+    have := (spend_refines env s hs hfee cs _).mpr ⟨ha, rfl⟩
+    rw [h] at this; cases this
+  | ok s' =>
+    refine ⟨fun ⟨e, he⟩ => (by cases he), fun hn => absurd ((spend_refines env s hs hfee cs s').mp h).1 hn⟩
+
+/-- **The per-spend rules are order-free**: they hold of a condition list iff they hold of any
+permutation of it. -/
+theorem spend_accepts_order_free (env : Env) (a : Attrs) (feeBefore countdown : Nat) {cs cs' : List Cond}
+    (hp : List.Perm cs cs') : SpendAccepts env a feeBefore countdown cs ↔ SpendAccepts env a feeBefore countdown cs' :=
+  accepts_perm env a feeBefore countdown hp
+
+/-- `spendResult`, field by field: what the state after the conditions `cs` of a spend is, in terms of
+the state `s` before them and order-free aggregates of `cs`.  (All by unfolding the specification.) -/
+theorem spend_result_fields (env : Env) (s : CSt) (cs : List Cond) :
+    let r := spendResult env s cs
+    let a := Rules.attrsOf s.spend
+    -- spend record
+    r.spend.heightRelative = maxOpt (heightRels cs) ∧ r.spend.secondsRelative = maxOpt (secondsRels cs) ∧
+    r.spend.beforeHeightRelative = minOpt (beforeHeightRels cs) ∧
+    r.spend.beforeSecondsRelative = minOpt (beforeSecondsRels cs) ∧
+    r.spend.birthHeight = commonValue (birthHeights cs) ∧ r.spend.birthSeconds = commonValue (birthSeconds cs) ∧
+    r.spend.createCoin = newCoins cs ∧
+    r.spend.aggSigMe = sigsOf Gen.opAggSigMe cs ∧ r.spend.aggSigParent = sigsOf Gen.opAggSigParent cs ∧
+    r.spend.aggSigPuzzle = sigsOf Gen.opAggSigPuzzle cs ∧ r.spend.aggSigAmount = sigsOf Gen.opAggSigAmount cs ∧
+    r.spend.aggSigPuzzleAmount = sigsOf Gen.opAggSigPuzzleAmount cs ∧
+    r.spend.aggSigParentAmount = sigsOf Gen.opAggSigParentAmount cs ∧
+    r.spend.aggSigParentPuzzle = sigsOf Gen.opAggSigParentPuzzle cs ∧
+    r.spend.flags = (bif anyNotEphemeral cs then s.spend.flags + HAS_RELATIVE_CONDITION else s.spend.flags) ∧
+    r.spend.parentId = s.spend.parentId ∧ r.spend.coinAmount = s.spend.coinAmount ∧
+    r.spend.puzzleHash = s.spend.puzzleHash ∧ r.spend.coinId = s.spend.coinId ∧
+    r.spend.executionCost = s.spend.executionCost ∧ r.spend.conditionCost = s.spend.conditionCost ∧
+    -- bundle summary
+    r.ret.reserveFee = s.ret.reserveFee + feeSum cs ∧ r.ret.additionAmount = s.ret.additionAmount + additions cs ∧
+    r.ret.heightAbsolute = max s.ret.heightAbsolute (maxList (heightAbss cs)) ∧
+    r.ret.secondsAbsolute = max s.ret.secondsAbsolute (maxList (secondsAbss cs)) ∧
+    r.ret.beforeHeightAbsolute = minOpt2 s.ret.beforeHeightAbsolute (minOpt (beforeHeightAbss cs)) ∧
+    r.ret.beforeSecondsAbsolute = minOpt2 s.ret.beforeSecondsAbsolute (minOpt (beforeSecondsAbss cs)) ∧
+    r.ret.aggSigUnsafe = s.ret.aggSigUnsafe ++ sigsOf Gen.opAggSigUnsafe cs ∧
+    r.ret.spends = s.ret.spends ∧ r.ret.removalAmount = s.ret.removalAmount ∧ r.ret.cost = s.ret.cost ∧
+    r.ret.executionCost = s.ret.executionCost ∧ r.ret.conditionCost = s.ret.conditionCost ∧
+    r.ret.validatedSignature = s.ret.validatedSignature ∧
+    -- parse state (the model puts the latest item first, hence `reverse`)
+    r.st.announceCoin = (cs.filterMap (coinAnnouncementOf a)).reverse ++ s.st.announceCoin ∧
+    r.st.announcePuzzle = (cs.filterMap (puzzleAnnouncementOf a)).reverse ++ s.st.announcePuzzle ∧
+    r.st.assertCoin = (cs.filterMap assertCoinAnnouncementOf).reverse ++ s.st.assertCoin ∧
+    r.st.assertPuzzle = (cs.filterMap assertPuzzleAnnouncementOf).reverse ++ s.st.assertPuzzle ∧
+    r.st.messages = (cs.filterMap (messageOf a)).reverse ++ s.st.messages ∧
+    r.st.assertConcurrentSpend = (cs.filterMap concurrentSpendOf).reverse ++ s.st.assertConcurrentSpend ∧
+    r.st.assertConcurrentPuzzle = (cs.filterMap concurrentPuzzleOf).reverse ++ s.st.assertConcurrentPuzzle ∧
+    r.st.assertEphemeral = List.replicate (ephemeralCount cs) s.ret.spends.length ++ s.st.assertEphemeral ∧
+    r.st.assertNotEphemeral =
+      (bif anyNotEphemeral cs then s.ret.spends.length :: s.st.assertNotEphemeral else s.st.assertNotEphemeral) ∧
+    r.st.pkmPairs = s.st.pkmPairs ++
+      (if hasFlag env.flags Gen.flagDontValidateSignature then [] else cs.filterMap (signedPairOf a)) ∧
+    r.st.spentCoins = s.st.spentCoins ∧ r.st.spentPuzzles = s.st.spentPuzzles ∧
+    -- loop counters
+    r.countdown = (if hasFlag env.flags Gen.flagCostConditions then s.countdown else s.countdown - announceCount cs) ∧
+    r.counter = s.counter :=
+  ⟨rfl, rfl, rfl, rfl, rfl, rfl, rfl, rfl, rfl, rfl, rfl, rfl, rfl, rfl, rfl, rfl, rfl, rfl, rfl, rfl, rfl,
+   rfl, rfl, rfl, rfl, rfl, rfl, rfl, rfl, rfl, rfl, rfl, rfl, rfl,
+   rfl, rfl, rfl, rfl, rfl, rfl, rfl, rfl, rfl, rfl, rfl, rfl, rfl, rfl⟩
+
+/-- The aggregates used by the summary are the declarative ones of C03: `maxOpt` is the maximum (absent
+iff the list is empty), `minOpt` the minimum, `maxList` the maximum with 0 for "no constraint", and under
+the "all equal" rule `commonValue` is the value all elements have. -/
+theorem summary_aggregates_spec (l : List Nat) :
+    MaxSpec (maxOpt l) l ∧ MinSpec (minOpt l) l ∧ AbsMaxSpec (maxList l) l ∧
+    ((∀ v ∈ l, ∀ w ∈ l, v = w) → SameSpec (commonValue l) l) :=
+  ⟨maxOpt_spec l, minOpt_spec l, maxList_spec l, commonValue_spec l⟩
+
+/-- the lock fields of an accepted spend, in the vocabulary of C03 -/
+theorem spend_locks_spec (env : Env) (s : CSt) (cs : List Cond)
+    (ha : SpendAccepts env (Rules.attrsOf s.spend) s.ret.reserveFee s.countdown cs) :
+    MaxSpec (spendResult env s cs).spend.heightRelative (heightRels cs) ∧
+    MaxSpec (spendResult env s cs).spend.secondsRelative (secondsRels cs) ∧
+    MinSpec (spendResult env s cs).spend.beforeHeightRelative (beforeHeightRels cs) ∧
+    MinSpec (spendResult env s cs).spend.beforeSecondsRelative (beforeSecondsRels cs) ∧
+    SameSpec (spendResult env s cs).spend.birthHeight (birthHeights cs) ∧
+    SameSpec (spendResult env s cs).spend.birthSeconds (birthSeconds cs) :=
+  ⟨maxOpt_spec _, maxOpt_spec _, minOpt_spec _, minOpt_spec _, commonValue_spec _ ha.2.2.2.1, commonValue_spec _ ha.2.2.2.2.1⟩
+
+/-! non-vacuity of `SpendAccepts`: a list that exercises every rule is accepted, one-edit variants are not -/
+
+example : SpendAccepts exEnv exAttrs 0 1024 exConds := by decide
+-- a wrong ASSERT_MY_COIN_ID / ASSERT_MY_AMOUNT
+example : ¬ SpendAccepts exEnv exAttrs 0 1024 (.assertMyCoinId [4] :: exConds) := by decide
+example : ¬ SpendAccepts exEnv exAttrs 0 1024 (.assertMyAmount 11 :: exConds) := by decide
+-- a second CREATE_COIN with the same (puzzle hash, amount), different hint
+example : ¬ SpendAccepts exEnv exAttrs 0 1024 (.createCoin [7] 4 (some [1]) :: exConds) := by decide
+-- a differing birth height
+example : ¬ SpendAccepts exEnv exAttrs 0 1024 (.assertMyBirthHeight 4 :: exConds) := by decide
+-- ASSERT_BEFORE_HEIGHT_RELATIVE 5 against ASSERT_HEIGHT_RELATIVE 5; ASSERT_SECONDS_RELATIVE 101 against before 101
+example : ¬ SpendAccepts exEnv exAttrs 0 1024 (.assertBeforeHeightRelative 5 :: exConds) := by decide
+example : ¬ SpendAccepts exEnv exAttrs 0 1024 (.assertSecondsRelative 101 :: exConds) := by decide
+-- an invalid public key
+example : ¬ SpendAccepts exEnv exAttrs 0 1024 (.aggSig Gen.opAggSigParent [0] [] :: exConds) := by decide
+-- an AGG_SIG_UNSAFE message ending in a domain-separation constant (fine for AGG_SIG_ME)
+example : ¬ SpendAccepts exEnv exAttrs 0 1024 (.aggSig Gen.opAggSigUnsafe [1] Gen.aggSigMeAdditionalData :: exConds) := by
+  decide
+example : SpendAccepts exEnv exAttrs 0 1024 (.aggSig Gen.opAggSigMe [1] Gen.aggSigMeAdditionalData :: exConds) := by
+  decide
+-- fee overflow: the list reserves 3
+example : ¬ SpendAccepts exEnv exAttrs (2 ^ 64 - 3) 1024 exConds := by decide
+example : SpendAccepts exEnv exAttrs (2 ^ 64 - 4) 1024 exConds := by decide
+-- the list has two announcement-class conditions: a budget of 1 is exceeded, unless COST_CONDITIONS is on
+example : ¬ SpendAccepts exEnv exAttrs 0 1 exConds := by decide
+example : SpendAccepts { exEnv with flags := Gen.flagCostConditions } exAttrs 0 1 exConds := by decide
+-- the summary of the list
+example : (spendSummary exEnv exAttrs exConds).heightRelative = some 5
+    ∧ (spendSummary exEnv exAttrs exConds).beforeHeightRelative = some 9
+    ∧ (spendSummary exEnv exAttrs exConds).birthHeight = some 3
+    ∧ (spendSummary exEnv exAttrs exConds).fee = 3
+    ∧ (spendSummary exEnv exAttrs exConds).additions = 9
+    ∧ (spendSummary exEnv exAttrs exConds).heightAbsolute = 4
+    ∧ (spendSummary exEnv exAttrs exConds).beforeHeightAbsolute = some 2
+    ∧ (spendSummary exEnv exAttrs exConds).createCoin = [⟨[7], 4, none⟩, ⟨[7], 5, some [9]⟩]
+    ∧ (spendSummary exEnv exAttrs exConds).aggSigMe = [([1], [2])]
+    ∧ (spendSummary exEnv exAttrs exConds).announceCoin = [([3], [1])]
+    ∧ (spendSummary exEnv exAttrs exConds).announceCount = 2
+    ∧ (spendSummary exEnv exAttrs exConds).notEphemeral = true := by decide
+-- non-vacuity of the hypotheses of `spend_refines`
+example : FreshSpend ({ parentId := [], coinAmount := 5, puzzleHash := [], coinId := [] } : Spend) := by
+  constructor <;> first | rfl | decide
+
+/-! ### one spend: the condition loop of `parse_conditions` -/
+
+/-- **The condition loop refines the per-spend rules.**  `condLoop` (for every element: opcode
+recognition, pre-charge, argument parsing under the flags, visitor, effect, SOFTFORK charge) accepts the
+tree `t` from a fresh per-spend state `s` with cost countdown `m` iff
+ * `t` is a NIL-terminated list `cs` every element of which is ignored or parses — `parseAll`, i.e. the
+   argument grammar `parseArgs` / `parseOpcode` applied element-wise, an element that is not an opcode
+   being ignored unless NO_UNKNOWN_CONDS is set (an order-free condition: `PermLoop.parseAll_perm`),
+ * the table cost of the list (`totalCost`, a sum) fits the countdown, which is reduced by it,
+ * the parsed conditions satisfy the order-free per-spend rules `SpendAccepts`,
+and then the state is `spendResult` of the parsed conditions, with the table cost booked, the recognised
+conditions counted and the eligibility flags cleared that the mempool visitor clears (`wrapF … allBits`). -/
+theorem condLoop_refines (env : Env) (t : Sexp) (s : CSt) (hs : FreshSpend s.spend) (hfee : s.ret.reserveFee < 2 ^ 64)
+    (m : Nat) (s' : CSt) (m' : Nat) :
+    condLoop env t s m = .ok (s', m') ↔
+      ∃ cs items, sexpList t = some cs ∧ parseAll env.flags cs = .ok items ∧
+        totalCost env.flags items ≤ m ∧ m' = m - totalCost env.flags items ∧
+        SpendAccepts env (Rules.attrsOf s.spend) s.ret.reserveFee s.countdown (itemConds items) ∧
+        s' = wrapF (allBits env.mempool s.counter items) (spendResult env s (itemConds items)) (totalCount items)
+              (totalCost env.flags items) :=
+  condLoop_rules env t s hs hfee m s' m'
+
+/-! ### the bundle -/
+
+/-- **C01, refinement.**  `parse_spends` accepts the generator output `t` under cost limit `L` (flags,
+visitor and key validity in `env`, signature verdict `sigOk`) with summary `b` and parse state `st` iff
+ * `t` parses (`parseBundle`: `(spends . ext)` with `spends` NIL-terminated, every spend a tuple
+   `(parent ph amount conds . ext)` with 32-byte parent id and puzzle hash and a canonical u64 amount, every
+   condition list NIL-terminated with every element ignored or parsing per the argument grammar), giving the
+   parsed spends `ps` (attributes incl. coin id = SHA-256(parent ‖ puzzle hash ‖ amount atom), and items);
+ * the bundle rules `BundleAccepts` hold — all order-free: spend count within the limit, coin ids pairwise
+   distinct, Σ table cost ≤ `L`, every spend satisfies the per-spend rules `SpendAccepts`, Σ RESERVE_FEE <
+   2^64, the deferred cross-spend rules (`Deferred`: no minting, fee covered, absolute locks compatible,
+   concurrent spends / puzzles present, announcements matched, ephemeral rules, messages balanced) hold of the
+   summary, and the aggregate signature verifies the collected (key, signed text) pairs unless
+   DONT_VALIDATE_SIGNATURE;
+ * `(b, st)` is `bundleSummary`: the left fold over the spends, in listing order, of the per-spend
+   summaries (`enterSpend` = `spendResult` + cost bookkeeping + finished spend record), then the visitor's
+   post-processing, `validated_signature`, and `cost` = the table cost.
+All record equalities are exact (every field; lists in listing order, which is stronger than "up to the
+order of `create_coin`").  Both visitors, all flags.
+
+What the specification takes from the model rather than restating: (a) the argument grammar of the
+individual conditions (`parseArgs`, `parseOpcode`, via `parseAll`; its rule table is Appendix A and is tied
+to the Rust code by the correspondence check; `parseOpcode_spec` above is its opcode part); (b) the values
+of the two mempool eligibility flags in `Spend.flags` (`newSpendVisit`, `allBits`, `postSpend`,
+`postProcess`; their closed forms per Appendix A.3 are `dedup_flag_closed_form`, `ff_flag_closed_form` and
+`flags_empty_visitor` below); (c) the cost table in
+list form (`totalCost`, `spendCharge`; C04 proves it equal to the consensus cost table). -/
+theorem C01_refines (env : Env) (sigOk : List (Bytes × Bytes) → Bool) (t : Sexp) (L cc : Nat) (b : Bundle) (st : PState) :
+    parseSpends env sigOk t L cc = .ok (b, st) ↔
+      ∃ ps, parseBundle env.flags t = some ps ∧ BundleAccepts env sigOk L cc ps ∧ (b, st) = bundleSummary env cc ps := by
+  rw [parseSpends_rules]
+  unfold BundleAccepts
+  have hv : ∀ ps, validateConditions (postProcess env (bundleFold env cc ps).1 (bundleFold env cc ps).2) (bundleFold env cc ps).2 = .ok ()
+      ↔ Deferred (postProcess env (bundleFold env cc ps).1 (bundleFold env cc ps).2) (bundleFold env cc ps).2 :=
+    fun ps => validateConditions_iff _ _
+  constructor
+  · rintro ⟨ps, h0, h1, h2, h3, h4, h5, h6, h7, h8⟩
+    exact ⟨ps, h0, ⟨h1, h2, h3, h4, h5, (hv ps).mp h6, h7⟩, h8⟩
+  · rintro ⟨ps, h0, ⟨h1, h2, h3, h4, h5, h6, h7⟩, h8⟩
+    exact ⟨ps, h0, h1, h2, h3, h4, h5, (hv ps).mpr h6, h7, h8⟩
+
+/-- **C01, rejection.**  `parse_spends` rejects (with either error kind) exactly when the generator
+output does not parse or the parsed spends violate the bundle rules. -/
+theorem C01_rejects (env : Env) (sigOk : List (Bytes × Bytes) → Bool) (t : Sexp) (L cc : Nat) :
+    (∃ e, parseSpends env sigOk t L cc = .error e) ↔
+      ¬ ∃ ps, parseBundle env.flags t = some ps ∧ BundleAccepts env sigOk L cc ps := by
+  cases h : parseSpends env sigOk t L cc with
+  | error e =>
+    refine ⟨fun _ ⟨ps, h1, h2⟩ => ?_, fun _ => ⟨e, rfl⟩⟩
+    have := (C01_refines env sigOk t L cc _ _).mpr ⟨ps, h1, h2, rfl⟩
+    rw [h] at this; cases this
+  | ok r =>
+    obtain ⟨b, st⟩ := r
+    obtain ⟨ps, h1, h2, _⟩ := (C01_refines env sigOk t L cc b st).mp h
+    exact ⟨fun ⟨e, he⟩ => (by cases he), fun hn => absurd ⟨ps, h1, h2⟩ hn⟩
+
+/-- the summary of an accepted bundle is a function of the parsed spends: two accepting runs on the same
+tree under the same flags report the same summary whatever the limit and the signature verdict -/
+theorem C01_summary_unique (env : Env) (sigOk sigOk' : List (Bytes × Bytes) → Bool) (t : Sexp) (L L' cc : Nat)
+    (r r' : Bundle × PState) (h : parseSpends env sigOk t L cc = .ok r) (h' : parseSpends env sigOk' t L' cc = .ok r') :
+    r = r' := by
+  obtain ⟨b, st⟩ := r
+  obtain ⟨b', st'⟩ := r'
+  obtain ⟨ps, h1, _, h3⟩ := (C01_refines env sigOk t L cc b st).mp h
+  obtain ⟨ps', h1', _, h3'⟩ := (C01_refines env sigOk' t L' cc b' st').mp h'
+  rw [h1] at h1'; injection h1' with h1'; subst h1'
+  rw [h3, h3']
+
+/-! non-vacuity of `BundleAccepts`: a two-spend bundle is accepted; one-edit variants are not -/
+
+example : ∃ ps, parseBundle envB.flags exBundle = some ps ∧ BundleAccepts envB (fun _ => true) 11000000000 0 ps := by
+  have h : okB (parseSpends envB (fun _ => true) exBundle 11000000000 0) = true := by decide +kernel
+  obtain ⟨⟨b, st⟩, h⟩ := okB_true h
+  obtain ⟨ps, h1, h2, _⟩ := (C01_refines _ _ _ _ _ b st).mp h
+  exact ⟨ps, h1, h2⟩
+-- the table cost of that bundle is 1 800 000 (one CREATE_COIN; COST_CONDITIONS off): the limit is exact
+example : ¬ ∃ ps, parseBundle envB.flags exBundle = some ps ∧ BundleAccepts envB (fun _ => true) 1799999 0 ps :=
+  (C01_rejects _ _ _ _ _).mp (okB_false (by decide +kernel))
+example : ∃ ps, parseBundle envB.flags exBundle = some ps ∧ BundleAccepts envB (fun _ => true) 1800000 0 ps := by
+  have h : okB (parseSpends envB (fun _ => true) exBundle 1800000 0) = true := by decide +kernel
+  obtain ⟨⟨b, st⟩, h⟩ := okB_true h
+  obtain ⟨ps, h1, h2, _⟩ := (C01_refines _ _ _ _ _ b st).mp h
+  exact ⟨ps, h1, h2⟩
+-- the same coin spent twice
+example : ¬ ∃ ps, parseBundle envB.flags (.pair (slist [spnd 1 [10] [], spnd 1 [10] []]) (.atom [])) = some ps ∧
+    BundleAccepts envB (fun _ => true) 11000000000 0 ps :=
+  (C01_rejects _ _ _ _ _).mp (okB_false (by decide +kernel))
+-- minting: a coin of 10 creating a coin of 11
+example : ¬ ∃ ps, parseBundle envB.flags (.pair (slist [spnd 1 [10] [cnd 51 [h32 7, [11]]]]) (.atom [])) = some ps ∧
+    BundleAccepts envB (fun _ => true) 11000000000 0 ps :=
+  (C01_rejects _ _ _ _ _).mp (okB_false (by decide +kernel))
+-- a failing aggregate signature
+example : ¬ ∃ ps, parseBundle envB.flags exBundle = some ps ∧ BundleAccepts envB (fun _ => false) 11000000000 0 ps :=
+  (C01_rejects _ _ _ _ _).mp (okB_false (by decide +kernel))
+-- an improper spend list (terminator is not NIL)
+example : ¬ ∃ ps, parseBundle envB.flags (.pair (.pair (spnd 1 [10] []) (.atom [1])) (.atom [])) = some ps ∧
+    BundleAccepts envB (fun _ => true) 11000000000 0 ps :=
+  (C01_rejects _ _ _ _ _).mp (okB_false (by decide +kernel))
+
+/-! ### the mempool eligibility flags (Appendix A.3) -/
+
+/-- **Closed form of ELIGIBLE_FOR_DEDUP.**  Under the mempool visitor, the spend record that the summary
+fold pushes for a spend `p` (`enterSpend`; `postProcess` never touches this flag) has ELIGIBLE_FOR_DEDUP set
+iff the spend has no AGG_SIG condition of any kind, no SEND_MESSAGE / RECEIVE_MESSAGE, and its created
+amounts sum to at least the coin amount. -/
+theorem dedup_flag_closed_form (env : Env) (cc : Nat) (acc : Bundle × PState) (p : PSpend) (sp : Spend)
+    (hm : env.mempool = true) (hl : (enterSpend env cc acc p).1.spends.getLast? = some sp) :
+    (sp.flags &&& ELIGIBLE_FOR_DEDUP ≠ 0 ↔
+      (∀ c ∈ itemConds p.items, (∀ op pk msg, c ≠ .aggSig op pk msg) ∧ (∀ m d g, c ≠ .sendMessage m d g) ∧
+        (∀ src m g, c ≠ .receiveMessage src m g)) ∧
+      p.attrs.amount ≤ additions (itemConds p.items)) :=
+  Rules.dedup_flag_closed_form env cc acc p sp hm hl
+
+/-- **Closed form of ELIGIBLE_FOR_FF, per-spend part.**  Under the mempool visitor, the spend record that
+the summary fold pushes for a spend `p` has ELIGIBLE_FOR_FF set iff the coin amount is odd, no recognised
+condition blocks fast-forward at its position (`blocksFF`: ASSERT_MY_COIN_ID, relative locks with an
+in-range value, birth assertions, ASSERT_EPHEMERAL, CREATE_COIN_ANNOUNCEMENT, AGG_SIG_ME / PARENT /
+PARENT_AMOUNT / PARENT_PUZZLE, a message whose own-side mode has the parent bit, and ASSERT_MY_PARENT_ID
+anywhere but as the second recognised condition), and some created coin has the spend's own puzzle hash and
+amount.  Afterwards `postProcess` clears the flag of a spend whose coin id is named by an
+ASSERT_CONCURRENT_SPEND of the bundle or one of whose created coins is spent in the bundle (that part is
+the model's definition, which is already a closed form). -/
+theorem ff_flag_closed_form (env : Env) (cc : Nat) (acc : Bundle × PState) (p : PSpend) (sp : Spend)
+    (hm : env.mempool = true) (hl : (enterSpend env cc acc p).1.spends.getLast? = some sp) :
+    (sp.flags &&& ELIGIBLE_FOR_FF ≠ 0 ↔
+      p.attrs.amount % 2 = 1 ∧
+      (∀ i c, (itemConds p.items)[i]? = some c → blocksFF i c = false) ∧
+      (p.attrs.puzzleHash, p.attrs.amount) ∈ createKeys (itemConds p.items)) :=
+  Rules.ff_flag_closed_form env cc acc p sp hm hl
+
+/-- under the empty visitor (block validation) the eligibility flags are never set: the only bit ever set
+in `Spend.flags` is HAS_RELATIVE_CONDITION -/
+theorem flags_empty_visitor (env : Env) (cc : Nat) (acc : Bundle × PState) (p : PSpend) (sp : Spend)
+    (hm : env.mempool = false) (hl : (enterSpend env cc acc p).1.spends.getLast? = some sp) :
+    sp.flags = (bif anyNotEphemeral (itemConds p.items) then HAS_RELATIVE_CONDITION else 0) :=
+  Rules.flags_empty_visitor env cc acc p sp hm hl
+
+/-! ### message keys -/
+
+/-- **`msgKey_injective`.**  A message is counted under the key (source key ‖ destination key ‖ message).
+Each end-point key has the form `KeyForm`: a mode byte followed by exactly the fixed-width fields the mode
+selects (coin id for mode 7; otherwise parent id 32, puzzle hash 32, amount 8 bytes, each iff its mode bit is
+set).  For keys of that form the concatenation determines source, destination and message, so "every key
+is sent exactly as often as it is received" (`Deferred`, last clause) is about the right objects. -/
+theorem msgKey_injective {src dst msg src' dst' msg' : Bytes} (h1 : KeyForm src) (h2 : KeyForm dst)
+    (h1' : KeyForm src') (h2' : KeyForm dst') (h : src ++ dst ++ msg = src' ++ dst' ++ msg') :
+    src = src' ∧ dst = dst' ∧ msg = msg' :=
+  msgKey_inj h1 h2 h1' h2' h
+
+/-- every end-point key that enters a message key has the form `KeyForm`: the key of the spend's own end
+(`selfKey`, for a spend whose parent id, puzzle hash and coin id have 32 bytes — which `spendTuple`
+guarantees, the coin id being a SHA-256 digest), and the foreign end that `parse_args` returns for a
+SEND_MESSAGE resp. RECEIVE_MESSAGE condition -/
+theorem message_keys_wellformed :
+    (∀ (mode : Nat) (a : Attrs), a.parentId.length = 32 → a.puzzleHash.length = 32 → a.coinId.length = 32 →
+      KeyForm (selfKey mode a)) ∧
+    (∀ (sp conds : Sexp) (a : Attrs), spendTuple sp = some (a, conds) →
+      a.parentId.length = 32 ∧ a.puzzleHash.length = 32 ∧ a.coinId.length = 32) ∧
+    (∀ (c : Sexp) (flags : Nat) (cva : Cond), parseArgs c Gen.opSendMessage flags = .ok cva →
+      ∃ srcMode dst msg, cva = .sendMessage srcMode dst msg ∧ KeyForm dst) ∧
+    (∀ (c : Sexp) (flags : Nat) (cva : Cond), parseArgs c Gen.opReceiveMessage flags = .ok cva →
+      ∃ src dstMode msg, cva = .receiveMessage src dstMode msg ∧ KeyForm src) := by
+  refine ⟨fun mode a h1 h2 h3 => keyForm_fromSelf mode _ _ _ _ h1 h2 h3, ?_,
+    fun c flags cva h => parseArgs_send_keyForm h, fun c flags cva h => parseArgs_receive_keyForm h⟩
+  intro sp conds a h
+  obtain ⟨parent, ph, amt, r, v, _, l1, l2, _, rfl⟩ := spendTuple_some h
+  exact ⟨l1, l2, sha256_len _⟩
+
+-- non-vacuity: a mode-5 key (parent id and amount) and a mode-7 key
+example : KeyForm (spendIdFromSelf 5 (h32 1) (h32 2) 10 (h32 3)) := keyForm_fromSelf 5 _ _ _ _ rfl rfl rfl
+example : ¬ KeyForm [5, 1, 2] := by
+  rintro ⟨mode, rest, h, hl⟩
+  injection h with h1 h2; subst h1
+  simp [keyLen] at hl
+
+/-! ### open -/
+
+/-- OPEN (not proved): the converse reading of `message_keys_wellformed` — a parsed condition is a
+SEND_MESSAGE / RECEIVE_MESSAGE condition only if its opcode is 66 / 67 (true by inspection of `parseArgs`,
+every other branch returns another constructor; the proof is a 35-branch case analysis that was not
+carried out).  With it, `message_keys_wellformed` would speak about every message condition of
+`itemConds items` rather than about the two opcodes.
+
+Also not restated independently of the model (and therefore not a theorem here): the argument grammar of
+the individual conditions, i.e. Appendix A's table for `parseArgs` (argument shapes, integer classes,
+STRICT_ARGS_COUNT terminators).  `C01_refines` uses the model's `parseArgs` through `parseAll`; that table
+is tied to the Rust code by the correspondence check (exhaustive single-condition sweep). -/
+def open_message_opcode_inversion : Prop :=
+  ∀ (c : Sexp) (op flags : Nat) (cva : Cond), parseArgs c op flags = .ok cva →
+    ((∃ m d g, cva = .sendMessage m d g) → op = Gen.opSendMessage) ∧
+    ((∃ src m g, cva = .receiveMessage src m g) → op = Gen.opReceiveMessage)
 
 end ChiaModel.C01
